@@ -61,38 +61,36 @@ func verifC18proc(params ...string) *lang.Process {
 	return p
 }
 
-// verifC18bound: one bound of a range as text with a concrete shape (sign, number of leading
-// zeros, number of significant digits) and symbolic digits; |value| <= limit.
+// verifC18bound: one bound of a range as text: sign, number of leading zeros and the digits above
+// the units are concrete per path (rt.Choice), the units digit is symbolic. (All digits symbolic
+// was tried first: the solver then needs seconds per query to relate the two bounds.)
 type verifC18boundT struct {
 	text   string
 	val    int
+	neg    bool
+	tens   int  // |value| / 10
 	padded bool // written with leading zeros
 	width  int  // number of digit characters
 }
 
-func verifC18bound(tag string, limit int) (b verifC18boundT) {
-	neg := rt.Choice(tag+"_negative", 2) == 1
+func verifC18bound(tag string, neg bool, tens int) (b verifC18boundT) {
 	zeros := 0
 	if !neg {
 		// what zero-padding means for a negative bound is not stated: negatives are drawn unpadded
 		zeros = rt.Choice(tag+"_leading_zeros", rt.Param("zeros")+1)
 	}
-	nd := 1 + rt.Choice(tag+"_ndigits", 3)
-	d := rt.Bytes(tag+"_digits", nd)
-	v := 0
-	for i := range d {
-		rt.Assume(rt.And(d[i] >= '0', d[i] <= '9'))
-		v = v*10 + int(d[i]-'0')
+	u := rt.Byte(tag + "_units_digit")
+	rt.Assume(rt.And(u >= '0', u <= '9'))
+	v := tens*10 + int(u-'0')
+	b.text = string([]byte{u})
+	if tens > 0 {
+		b.text = verifC18itoa(tens) + b.text
 	}
-	if nd > 1 {
-		rt.Assume(d[0] != '0') // leading zeros are counted by `zeros`
-	}
-	rt.Assume(v <= limit)
-	b.text = string(d)
+	nd := len(b.text)
 	for i := 0; i < zeros; i++ {
 		b.text = "0" + b.text
 	}
-	b.val, b.padded, b.width = v, zeros > 0, zeros+nd
+	b.val, b.neg, b.tens, b.padded, b.width = v, neg, tens, zeros > 0, zeros+nd
 	if neg {
 		b.text = "-" + b.text
 		b.val = -v
@@ -138,15 +136,23 @@ func verifC18padKnown(m, n verifC18boundT) bool {
 // VerifC18Range: `a [m..n]` (cmd=0: real str writer, one per line) and `ta verifc18 [m..n]`
 // (cmd=1: elements as handed to the encoder, what `ja` encodes) for symbolic m and n = m +- d.
 func VerifC18Range() {
-	limit := rt.Param("limit")
-	m := verifC18bound("m", limit)
-	n := verifC18bound("n", limit)
-	d := rt.Choice("span", rt.Param("span")+1)
+	limit := rt.Param("limit") // |m|, |n| <= limit (a multiple of 10) + 9
+	mNeg := rt.Choice("m_negative", 2) == 1
+	mTens := rt.Choice("m_tens", limit/10+1)
+	m := verifC18bound("m", mNeg, mTens)
+	d := rt.Choice("span", rt.Param("span")+1) // n = m +- d, d <= 9
 	down := rt.Choice("descending", 2) == 1
+	if down && d == 0 {
+		rt.Assume(false) // span 0 is covered by descending=0
+	}
+	// shape of n: with d <= 9 its tens differ by at most one and the sign can only change around 0
+	nNeg := rt.Choice("n_negative", 2) == 1
+	nTens := mTens + rt.Choice("n_tens_offset", 3) - 1
+	if nTens < 0 || nTens > limit/10 || (nNeg != mNeg && (mTens > 0 || nTens > 0)) {
+		rt.Assume(false)
+	}
+	n := verifC18bound("n", nNeg, nTens)
 	if down {
-		if d == 0 {
-			rt.Assume(false) // span 0 is covered by descending=0
-		}
 		rt.Assume(n.val == m.val-d)
 	} else {
 		rt.Assume(n.val == m.val+d)
